@@ -157,7 +157,12 @@ def gen_cases(seed, tier):
              "ed9fbf", "eda080", "edbfbf", "ee8080", "efbfbf", "efbf", "f0808080", "f08fbfbf", "f0908080", "f09080",
              "f48fbfbf", "f4908080", "f5808080", "f8888080", "ff", "fe", "c2", "e3", "f0", "61c3a962", "c3a9c3", "e38182e3", "f09f9880f09f98"]
     for h in edges:
-        cases.append(CliCase(f"clir{k}", "n", None, b"ab", b"ab\n" + bytes.fromhex(h) + b"\nab\n", [], True)); k += 1
+        try:
+            bytes.fromhex(h).decode("utf-8")
+            fam = "clie"        # a UTF-8 line: inside the property, an ordinary case
+        except UnicodeDecodeError:
+            fam = "clir"
+        cases.append(CliCase(f"{fam}{k}", "n", None, b"ab", b"ab\n" + bytes.fromhex(h) + b"\nab\n", [], True)); k += 1
     # a FILE name that is not UTF-8: opened all the same, its name is not printed
     for fl in ("", "n", "cn", "h"):
         cases.append(CliCase(f"clir{k}", fl, None, b"ab\nbc", b"", [("in\udcff.txt", b"ab\nzz\nxbc\n"), ("ok.txt", b"bc\n"), ("\udce3\udc81", b"ab\n\xff\nab\n")], False)); k += 1
